@@ -25,6 +25,8 @@ def _expand(plans, tier):
     late = 0
     for i, p in enumerate(plans):
         out.append(p)
+        if p.get("driver") == "pipeline":   # channel-manager plans: no catalog variants
+            continue
         if tier == "quick" and str(p.get("src", "")).startswith("t2sub"):
             continue    # quick: the barrier plans are replayed on the plain catalog only
         if _late_relevant(p) and i % 3 != 1 and late < (60 if tier == "quick" else 4000):
@@ -77,6 +79,12 @@ C = dict(
     # databases that are created while the tasks run, right before their first collection ("-ldb")
     expand_plans=_expand,
     directed="plans/C13.jsonl",
+    # "being notified twice about the same object has no further effect" at the channel manager: the directed plans
+    # d-announced-* run on the real replicateChannelManager (driver pipeline; two StartReadCollection calls of one collection in
+    # flight, or one after the other) and are judged by Pipe_Trace (PROP=C13: no source vchannel is registered while registered)
+    more_drivers=["pipeline"],
+    trace_of=lambda p: (("Pipe_Trace", "Pipe_Trace.cfg", {"PROP": "C13"}) if p.get("driver") == "pipeline"
+                        else ("CatalogWatch_Trace", "CatalogWatch_Trace.cfg", {})),
     trace=("CatalogWatch_Trace", "CatalogWatch_Trace.cfg"),
     death="violation",
     driver_timeout=2400,
